@@ -6,6 +6,7 @@ import (
 	"flag"
 	"fmt"
 	"os"
+	"runtime/debug"
 	"time"
 
 	lz4 "github.com/pierrec/lz4/v4"
@@ -70,6 +71,7 @@ type wcase struct {
 	Opts   wopts     `json:"opts"`
 	Calls  []wcall   `json:"calls"`
 	FailAt int       `json:"failAt,omitempty"`
+	Once   bool      `json:"once,omitempty"` // the sink fails only at call FailAt (transient fault)
 	Save   string    `json:"save,omitempty"` // write the sink bytes to this file
 	// PrefixOf names a file with the fault-free output of the same case: the record then says
 	// whether what reached the sink is a prefix of it (C15)
@@ -123,7 +125,7 @@ func frameWrite(args []string) error {
 		}
 		n++
 		input := c.Input.build()
-		sink := &recSink{failAt: c.FailAt, limit: 1 << 28}
+		sink := &recSink{failAt: c.FailAt, once: c.Once, atFail: -1, limit: 1 << 28}
 		var blocks []int
 		decode := func(seg, in []byte) (int, bool) {
 			p := ref.ParseFrame(seg, false)
@@ -185,7 +187,12 @@ func frameWrite(args []string) error {
 			if err != nil {
 				return err
 			}
-			e["sinkIsPrefix"] = isPrefix(b, full)
+			// what had reached the sink when the fault happened (everything, for a permanent fault)
+			upto := b
+			if sink.atFail >= 0 && sink.atFail <= len(b) {
+				upto = b[:sink.atFail]
+			}
+			e["sinkIsPrefix"] = isPrefix(upto, full)
 		}
 		w.put(e)
 		return nil
@@ -323,6 +330,11 @@ func frameRead(args []string) error {
 		return err
 	}
 	w.flush = true
+	if *mem {
+		// C07 sensor: recursion in proportion to the input shows as a fatal stack overflow well before
+		// the default 1 GB goroutine stack limit is reached
+		debug.SetMaxStack(32 << 20)
+	}
 	n := 0
 	var contentKey string
 	var contentCache []byte
